@@ -15,7 +15,7 @@ from typing_extensions import dataclass_transform, ParamSpec, Self, TypeAlias
 
 from .convert import DataType, Convertible, from_data, into_data, convert
 from .convert import ConverterHandler, ConverterHandlers, IntoConverterHandlers
-from .converters import Converter, make_converter
+from .converters import Converter, make_converter, data_is_sequence
 from .errors import ConvertError, ParseInterrupt, ErrorNode
 from .errors import WrongTypeError, WrongLenError, ProductErrorNode, DuplicateKeyError
 from .field import Field, FieldSpec, field, RenameStyle, rename_field, _MISSING
@@ -754,7 +754,7 @@ class PaneConverter(Converter[PaneBaseT]):
         and [`try_convert_struct`][pane.classes.PaneConverter.try_convert_struct]
         """
         # based on type, try to delegate to try_convert_tuple or try_convert_struct
-        if isinstance(val, (list, tuple, t.Sequence)):
+        if data_is_sequence(val):
             val = t.cast(t.Sequence[t.Any], val)
             if 'tuple' not in self.opts.in_format:
                 raise ParseInterrupt()
@@ -777,7 +777,7 @@ class PaneConverter(Converter[PaneBaseT]):
         and [`collect_errors_struct`][pane.classes.PaneConverter.collect_errors_struct]
         """
         # based on type, try to delegate to collect_errors_tuple or collect_errors_struct
-        if isinstance(val, (list, tuple, t.Sequence)):
+        if data_is_sequence(val):
             if 'tuple' not in self.opts.in_format:
                 return WrongTypeError(self.expected_struct(), val)
 
